@@ -42,10 +42,18 @@ class Case:
         self.st = self.ch['states']
         self.tdict = {t['id']: t for t in self.ch['transitions']}
         self.digest = chart_digest(self.ch)
-        self.via = via or rnd.choice(('api', 'api', 'yaml'))
+        self.via = via or rnd.choice(('api', 'api', 'yaml', 'edited'))
+        self.detours = None
+        if self.via == 'edited':
+            r = build.build_edited(self.ch, rnd)
+            if r is None:
+                acc.count('edited_build_did_not_lead_back')
+                self.via = 'api'
+            else:
+                self.sc, self.tmap, self.detours = r
         if self.via == 'api':
             self.sc, self.tmap = build.build_api(self.ch)
-        else:
+        elif self.via == 'yaml':
             self.sc, self.tmap = build.build_yaml(self.ch)
         p_true = rnd.choice((0.3, 0.6, 0.6, 0.9, 1.0, 0.0))
         self.p_true = p_true
@@ -81,7 +89,7 @@ class Case:
     def report(self, prop, key, msg, **w):
         """Record a finding for property ``prop``; only the focus property's are violations."""
         if prop == self.focus or prop == '*':
-            wit = dict(chart=self.ch, via=self.via, p_true=self.p_true, history=self.history[-60:],
+            wit = dict(chart=self.ch, via=self.via, detours=self.detours, p_true=self.p_true, history=self.history[-60:],
                        mode=self.mode)
             wit.update(w)
             self.acc.violation('%s:%s' % (self.focus, key), msg, wit)
